@@ -9,7 +9,9 @@ package ipfix
 //@ pred rdr(r *reader.Reader) = r != nil && inv(r)
 //@ pred nonfatal(e error) = e != nil && typeid(e) == tyof(nonfatalError)
 //@ pred fatal(e error) = e != nil && typeid(e) != tyof(nonfatalError)
-//@ pred wellFormed(m MemCache) = len(m) == 32 && (forall i :: 0 <= i && i < 32 ==> m[i] != nil && !m[i].Templates.isnil)
+//@ pred wellFormed(m MemCache) = len(m) == 32 && (forall j :: m.off <= j && j < m.off + 32 ==> m.arr[j] != nil && !m.arr[j].Templates.isnil)
+//@ uninterp cacheHas(m MemCache, addr net.IP, id uint16) bool
+//@ uninterp cacheGet(m MemCache, addr net.IP, id uint16) TemplateRecord
 
 //@ pred mhdrAt(h MessageHeader, b []byte, p mathint) = h.Version == be16(b, p) && h.Length == be16(b, p+2)
 //@     && h.ExportTime == be32(b, p+4) && h.SequenceNo == be32(b, p+8) && h.DomainID == be32(b, p+12)
@@ -137,7 +139,11 @@ package ipfix
 //@   ensures [advance] err == nil || nonfatal(err) ==> d.reader.count == old(d.reader.count) + be16(d.reader.base, old(d.reader.count)+2)
 //@   ensures [records] len(msg.DataSets) >= old(len(msg.DataSets)) && len(msg.DataSets) - old(len(msg.DataSets)) <= d.reader.count - old(d.reader.count)
 //@   ensures msg.Header == old(msg.Header) && msg.AgentID == old(msg.AgentID)
-//@   modifies d.reader.data, d.reader.count, msg.DataSets
+//@   ensures [kept] forall k :: 0 <= k && k < old(len(msg.DataSets)) ==> msg.DataSets[k] == old(msg.DataSets)[k]
+//@   ensures [reserved] old(len(d.reader.data)) >= 4 && 4 <= be16(d.reader.base, old(d.reader.count)) && be16(d.reader.base, old(d.reader.count)) <= 255 ==> len(msg.DataSets) == old(len(msg.DataSets))
+//@   ensures [unknown] old(len(d.reader.data)) >= 4 && be16(d.reader.base, old(d.reader.count)) > 255 && !cacheHas(old(mem), d.raddr, be16(d.reader.base, old(d.reader.count))) ==> len(msg.DataSets) == old(len(msg.DataSets)) && err != nil
+//@   ensures [tplset] old(len(d.reader.data)) >= 4 && be16(d.reader.base, old(d.reader.count)) <= 3 ==> len(msg.DataSets) == old(len(msg.DataSets))
+//@   modifies d.reader.data, d.reader.count, msg.DataSets, contents(mem)
 //@   loop 1
 //@     invariant [rdr] rdr(d.reader) && d.reader.base == old(d.reader.base)
 //@     invariant [raddr] d.raddr == old(d.raddr) && msg != nil && setHeader != nil
@@ -146,6 +152,9 @@ package ipfix
 //@     invariant startCount == old(d.reader.count) && d.reader.count >= startCount + 4 && old(len(d.reader.data)) >= 4
 //@     invariant setHeader.Length == be16(d.reader.base, startCount+2) && setHeader.SetID == be16(d.reader.base, startCount) && setHeader.Length >= 4
 //@     invariant len(msg.DataSets) >= old(len(msg.DataSets)) && len(msg.DataSets) - old(len(msg.DataSets)) <= d.reader.count - startCount - 4
+//@     invariant [kept] forall k :: 0 <= k && k < old(len(msg.DataSets)) ==> msg.DataSets[k] == old(msg.DataSets)[k]
+//@     invariant [nodata] setHeader.SetID <= 255 ==> len(msg.DataSets) == old(len(msg.DataSets))
+//@     invariant [unk] setHeader.SetID > 255 && !cacheHas(old(mem), d.raddr, setHeader.SetID) ==> err != nil && len(msg.DataSets) == old(len(msg.DataSets))
 //@     decreases len(d.reader.data) + (err == nil ? 1 : 0)
 
 //@ func (*Decoder).Decode
@@ -153,7 +162,7 @@ package ipfix
 //@   ensures (len(old(d.reader.base)) < 16 || be16(old(d.reader.base), 0) != 10) ==> result == nil && err != nil
 //@   ensures result != nil ==> mhdrAt(result.Header, old(d.reader.base), 0)
 //@   ensures [records] result != nil ==> len(result.DataSets) <= len(old(d.reader.base))
-//@   modifies d.reader.data, d.reader.count
+//@   modifies d.reader.data, d.reader.count, contents(mem)
 //@   loop 1
 //@     invariant rdr(d.reader) && d.reader.base == old(d.reader.base) && msg != nil && wellFormed(mem) && d.reader.count >= 16
 //@     invariant mhdrAt(msg.Header, d.reader.base, 0)
@@ -188,6 +197,10 @@ package ipfix
 
 //@ func (MemCache).insert
 //@   requires wellFormed(m)
+//@   ensures wellFormed(m)
+//@   modifies contents(m)
 
 //@ func (MemCache).retrieve
 //@   requires wellFormed(m)
+//@   ensures result1 == cacheHas(m, addr, id) && result == cacheGet(m, addr, id)
+//@   opt trustpost cacheHas/cacheGet are the abstract view of the cache; their relation to the shard maps is the subject of C04
